@@ -21,12 +21,15 @@ import (
 	"verifmc/vsync"
 	"verifmc/vtask"
 
+	"github.com/LemoFoundationLtd/lemochain-core/chain"
 	"github.com/LemoFoundationLtd/lemochain-core/chain/account"
 	"github.com/LemoFoundationLtd/lemochain-core/chain/consensus"
 	"github.com/LemoFoundationLtd/lemochain-core/chain/deputynode"
 	"github.com/LemoFoundationLtd/lemochain-core/chain/txpool"
 	"github.com/LemoFoundationLtd/lemochain-core/chain/types"
 	"github.com/LemoFoundationLtd/lemochain-core/common"
+	"github.com/LemoFoundationLtd/lemochain-core/common/flag"
+	mainnode "github.com/LemoFoundationLtd/lemochain-core/main/node"
 	"github.com/LemoFoundationLtd/lemochain-core/network"
 	"github.com/LemoFoundationLtd/lemochain-core/store"
 )
@@ -38,6 +41,8 @@ type inst struct {
 	dm   *deputynode.Manager
 	pool *txpool.TxPool
 	am   *account.Manager
+	bc   *chain.BlockChain
+	api  *mainnode.PublicChainAPI
 	dp   *consensus.DPoVP
 
 	confirmCh chan *network.BlockConfirmData
@@ -50,26 +55,6 @@ type inst struct {
 	mined   []*types.Block
 }
 
-type loader struct{ db *store.ChainDatabase }
-
-// GetParentByHeight is what chain.BlockChain.GetParentByHeight does.
-func (l loader) GetParentByHeight(height uint32, sonBlockHash common.Hash) *types.Block {
-	stable, err := l.db.LoadLatestBlock()
-	if err != nil {
-		return nil
-	}
-	var b *types.Block
-	if height <= stable.Height() {
-		b, err = l.db.GetBlockByHeight(height)
-	} else {
-		b, err = l.db.GetUnConfirmByHeight(height, sonBlockHash)
-	}
-	if err != nil {
-		return nil
-	}
-	return b
-}
-
 func newInst(w *world) *inst {
 	vclock.SetUnix(int64(node.GenesisTime) + clockOff)
 	node.SetSelf(node.Deputy(selfIndex))
@@ -79,15 +64,15 @@ func newInst(w *world) *inst {
 	node.SetupGenesis(in.db, nDeputies)
 	in.dm = deputynode.NewManager(nDeputies, in.db)
 	in.pool = txpool.NewTxPool()
-	stable, err := in.db.LoadLatestBlock()
+	// the chain object the network, miner and RPC threads talk to; its engine is the object under test
+	bc, err := chain.NewBlockChain(chain.Config{ChainID: node.ChainID, MineTimeout: node.MineTimeout}, in.dm, in.db, flag.CmdFlags{}, in.pool)
 	if err != nil {
 		panic(err)
 	}
-	in.am = account.NewManager(stable.Hash(), in.db)
-	guard := txpool.NewTxGuard(stable.Time())
-	cfg := consensus.Config{RewardManager: stable.MinerAddress(), ChainID: node.ChainID, MineTimeout: node.MineTimeout}
-	in.dp = consensus.NewDPoVP(cfg, in.db, in.dm, in.am, loader{in.db}, in.pool, guard)
-	guard.SaveBlock(stable) // chain.BlockChain.initTxPool
+	in.bc = bc
+	in.dp = chain.VerifC19Engine(bc)
+	in.am = bc.AccountManager()
+	in.api = mainnode.NewPublicChainAPI(bc)
 	in.confirmCh = make(chan *network.BlockConfirmData, 256)
 	in.fetchCh = make(chan []network.GetConfirmInfo, 256)
 	in.stableCh = make(chan *types.Block, 256)
@@ -106,6 +91,7 @@ func (in *inst) destroy() {
 		}
 		time.Sleep(250 * time.Microsecond)
 	}
+	in.bc.Stop()
 	in.db.Close()
 	os.RemoveAll(in.dir)
 }
@@ -243,8 +229,10 @@ func drainBG() {
 //	mine           MineBlock                           (miner)
 //	pool           TxPool.AddTx(the pool transaction)   (RPC sendTx)
 //	stable|current StableBlock / CurrentBlock          (RPC, network status)
-//	confirms X     GetBlockByHash(X) then read of its Confirms (network.handleGetConfirmsMsg)
-//	top X          GetCandidatesTop(X)                 (RPC)
+//	confirms X     BlockChain.GetBlockByHash(X) then read of its Confirms (network.handleGetConfirmsMsg)
+//	blockat H      PublicChainAPI.GetBlockByHeight(H) = BlockChain.GetBlockByHeight, then read of its Confirms (RPC, block sender)
+//	top X          BlockChain.GetCandidatesTop(X)
+//	top30          PublicChainAPI.GetCandidateTop30()  (RPC)
 //	acct           balance of u1 in the canonical (stable) state: AccountManager().GetCanonicalAccount (RPC)
 func (in *inst) do(req string) string {
 	w := in.w
@@ -274,6 +262,7 @@ func (in *inst) do(req string) string {
 		}
 		in.mu.Lock()
 		in.mined = append(in.mined, b)
+		w.minedNames[b.Hash()] = w.nameOf(b)
 		in.mu.Unlock()
 		return fmt.Sprintf("%s signed-by-self=%v", w.nameOf(b), consensus.IsMinedByself(b))
 	case "pool":
@@ -282,20 +271,36 @@ func (in *inst) do(req string) string {
 		}
 		return "ok"
 	case "stable":
-		return w.nameOf(in.dp.StableBlock())
+		return w.nameOf(in.bc.StableBlock())
 	case "current":
-		return w.nameOf(in.dp.CurrentBlock())
+		return w.nameOf(in.bc.CurrentBlock())
 	case "confirms":
-		b, err := in.db.GetBlockByHash(w.hash[f[1]])
-		if err != nil {
-			return err.Error()
+		b := in.bc.GetBlockByHash(w.hash[f[1]])
+		if b == nil {
+			return "nil"
 		}
 		vsync.Access(unsafe.Pointer(&b.Confirms), false) // resMsg.Pack = block.Confirms
 		pack := b.Confirms
 		return fmt.Sprintf("%d confirms %s", len(pack), signers(b.Hash(), pack))
+	case "blockat":
+		var h uint32
+		fmt.Sscanf(f[1], "%d", &h)
+		b := in.api.GetBlockByHeight(h, true) // = BlockChain.GetBlockByHeight, also behind handleGetBlocksMsg / handleGetConfirmsMsg
+		if b == nil {
+			return "nil"
+		}
+		vsync.Access(unsafe.Pointer(&b.Confirms), false)
+		pack := b.Confirms
+		return fmt.Sprintf("%s with %d confirms %s", w.nameOf(b), len(pack), signers(b.Hash(), pack))
+	case "top30":
+		var l []string
+		for _, c := range in.api.GetCandidateTop30() {
+			l = append(l, c.CandidateAddress[len(c.CandidateAddress)-6:]+":"+c.Votes)
+		}
+		return strings.Join(l, ",")
 	case "top":
 		var l []string
-		for _, c := range in.db.GetCandidatesTop(w.hash[f[1]]) {
+		for _, c := range in.bc.GetCandidatesTop(w.hash[f[1]]) {
 			a := c.GetAddress()
 			l = append(l, fmt.Sprintf("%x:%s", a[16:], c.GetTotal()))
 		}
